@@ -26,11 +26,11 @@ func init() {
 // reviewedPanics: (function, guard descriptor) -> invariant. The message text is not part of the key.
 var reviewedPanics = map[string]string{
 	"graphBuilder|not a value-converter":   "only requirement vertices (out-edges of the target: value/typedArg) that were pruned, and supplied inputs (value/typedOut), reach the assertion; every label-carrying kind implements value() (checked mechanically below)",
-	"resolver|not a value-converter": "the asserted vertex is a requirement of the function being resolved that is not the root (root requirements are skipped earlier): value or typedArg, which implement value()",
-	"resolver|final value invalid":   "a chosen path ends at the requirement and every arm of the walk forwards the last seen value (rule ORDER: snapshot after update); reviewed after the fix of the stale-snapshot defect",
-	"Redefine-closure|struct walker error":    "the walked type is the reflect.StructOf result built by the planner: a struct, zero pointers — neither rejection of the struct walker can trigger",
-	"MustFunc|by-contract":       "exported; documented to panic on error; not reachable from Call/Convert/Redefine (checked below)",
-	"Graph.KahnSort|by-contract": "exported; documented to panic on cyclic graphs (property C20); not reachable from Call/Convert/Redefine (checked below)",
+	"resolver|not a value-converter":       "the asserted vertex is a requirement of the function being resolved that is not the root (root requirements are skipped earlier): value or typedArg, which implement value()",
+	"resolver|final value invalid":         "a chosen path ends at the requirement and every arm of the walk forwards the last seen value (rule ORDER: snapshot after update); reviewed after the fix of the stale-snapshot defect",
+	"Redefine-closure|struct walker error": "the walked type is the reflect.StructOf result built by the planner: a struct, zero pointers — neither rejection of the struct walker can trigger",
+	"MustFunc|by-contract":                 "exported; documented to panic on error; not reachable from Call/Convert/Redefine (checked below)",
+	"Graph.KahnSort|by-contract":           "exported; documented to panic on cyclic graphs (property C20); not reachable from Call/Convert/Redefine (checked below)",
 }
 
 // reviewedAsserts: unchecked type assertions accepted after review.
@@ -228,27 +228,9 @@ func runPanic(c *Ctx) {
 			why, listed := reviewedAsserts[key]
 			mech := ""
 			// mechanical: asserting the result of an in-target call whose every return boxes exactly that type
-			if cl, ok := ta.X.(*ssa.Call); ok {
-				var cal *ssa.Function
-				if cl.Common().IsInvoke() {
-					if rcv := core.NamedOf(cl.Common().Value.Type()); rcv != "" {
-						cal = p.Method(p.Arg, rcv, cl.Common().Method.Name())
-					}
-				} else {
-					cal = cl.Common().StaticCallee()
-				}
-				if cal != nil && p.InTarget(cal) {
-					all := true
-					for _, r := range core.Returns(cal) {
-						mi, ok := r.Results[0].(*ssa.MakeInterface)
-						if !ok || !types.Identical(mi.X.Type(), ta.AssertedType) {
-							all = false
-						}
-					}
-					if all {
-						mech = "callee " + core.FuncName(cal) + " returns exactly this type on every path"
-					}
-				}
+			// (also through a parameter of an unexported helper, when every call site hands in such a result)
+			if why, ok := c.boxesExactly(ta.X, ta.AssertedType, 0); ok {
+				mech = why
 			}
 			if types.Identical(ta.X.Type(), ta.AssertedType) {
 				mech = "assertion to the operand's own static type: the implicit nil check of a method value, on an interface obtained from reflect just before"
@@ -261,6 +243,77 @@ func runPanic(c *Ctx) {
 
 	runPack(c)
 	runStructOf(c)
+}
+
+// boxesExactly: v is an interface value that provably holds dynamic type T.
+func (c *Ctx) boxesExactly(v ssa.Value, T types.Type, depth int) (string, bool) {
+	p := c.P
+	if depth > 3 {
+		return "", false
+	}
+	switch x := v.(type) {
+	case *ssa.MakeInterface:
+		if types.Identical(x.X.Type(), T) {
+			return "boxed from exactly this type", true
+		}
+	case *ssa.Call:
+		var cal *ssa.Function
+		if x.Common().IsInvoke() {
+			if rcv := core.NamedOf(x.Common().Value.Type()); rcv != "" {
+				cal = p.Method(p.Arg, rcv, x.Common().Method.Name())
+			}
+		} else {
+			cal = x.Common().StaticCallee()
+		}
+		if cal == nil || !p.InTarget(cal) || len(cal.Blocks) == 0 {
+			return "", false
+		}
+		rets := core.Returns(cal)
+		if len(rets) == 0 {
+			return "", false
+		}
+		for _, r := range rets {
+			if len(r.Results) != 1 {
+				return "", false
+			}
+			if _, ok := c.boxesExactly(r.Results[0], T, depth+1); !ok {
+				return "", false
+			}
+		}
+		return "callee " + core.FuncName(cal) + " returns exactly this type on every path", true
+	case *ssa.Phi:
+		for _, e := range x.Edges {
+			if _, ok := c.boxesExactly(e, T, depth+1); !ok {
+				return "", false
+			}
+		}
+		return "every incoming value is boxed from exactly this type", len(x.Edges) > 0
+	case *ssa.Parameter:
+		fn := x.Parent()
+		if !p.OnlyStaticallyCalled(fn) {
+			return "", false
+		}
+		idx := -1
+		for i, pr := range fn.Params {
+			if pr == x {
+				idx = i
+			}
+		}
+		sites := p.Callers(fn)
+		if idx < 0 || len(sites) == 0 {
+			return "", false
+		}
+		for _, s := range sites {
+			if idx >= len(s.Common().Args) {
+				return "", false
+			}
+			if _, ok := c.boxesExactly(s.Common().Args[idx], T, depth+1); !ok {
+				return "", false
+			}
+		}
+		return fmt.Sprintf("parameter of %s: all %d call site(s) hand in a value boxed from exactly this type", core.FuncName(fn), len(sites)), true
+	}
+	return "", false
 }
 
 func keysOf(m map[int64]bool) []int64 {
